@@ -67,6 +67,8 @@ type DecideSpec struct {
 	// needed: helpers whose results the first view met in a condition it could
 	// not name (set by Decide); shared helpers are stepped into only when needed
 	needed map[*ssa.Function]bool
+	// funcArgs: third view — step through function values (set by Decide)
+	funcArgs bool
 }
 
 // undecidedIn collects, during one decideOnce, the stepped-into helpers in
@@ -174,6 +176,20 @@ func Decide(spec DecideSpec, pos func(token.Pos) string) DecideResult {
 		if len(res2.Undecided) == 0 && len(res2.Mismatches) == 0 {
 			return res2
 		}
+		// third view: the body runs inside a function value handed to a private
+		// helper of the package (`x.withLock(func(){ … })`, `x.withLock(x.bodyLocked)`)
+		spec3 := spec
+		spec3.funcArgs = true
+		res3 := decideOnce(spec3, pos)
+		if os.Getenv("RQCHECK_DEBUG_DECIDE") != "" {
+			fmt.Fprintf(os.Stderr, "DECIDE %s: third view undecided=%v mismatches=%d\n", spec.Fn.Name(), res3.Undecided, len(res3.Mismatches))
+			if len(res3.Mismatches) > 0 {
+				fmt.Fprintf(os.Stderr, "  first third-view mismatch: %+v\n", res3.Mismatches[0])
+			}
+		}
+		if len(res3.Undecided) == 0 && len(res3.Mismatches) == 0 {
+			return res3
+		}
 		if len(res.Undecided) > 0 && len(res2.Undecided) == 0 {
 			return res2
 		}
@@ -279,6 +295,14 @@ func interpret(spec DecideSpec, val Val, pos func(token.Pos) string) (string, []
 						v = sv
 						continue
 					}
+				case *ssa.FreeVar:
+					// a load through a captured cell (third view)
+					if cell, ok := bound[u.X]; ok {
+						if sv, ok := mem[cellNameR(cell, resolve)]; ok {
+							v = sv
+							continue
+						}
+					}
 				}
 				return v
 			}
@@ -348,11 +372,66 @@ func interpret(spec DecideSpec, val Val, pos func(token.Pos) string) (string, []
 	}
 	stack := []*frame{{fn: fn, b: b, visits: map[*ssa.BasicBlock]int{}}}
 	_ = prev
+	// third view only (spec.funcArgs): a call through a function value that is, on
+	// this path, a closure (or a bound method) built by a function on the stack —
+	// the `withLock(func(){ … })` shape. The closure's free variables are bound to
+	// what the closure captured.
+	stepThroughValue := func(call *ssa.Call) *ssa.Function {
+		if !spec.funcArgs || spec.NoStep || len(stack) > 5 || call.Call.IsInvoke() || call.Call.StaticCallee() != nil {
+			return nil
+		}
+		mc, ok := resolve(call.Call.Value).(*ssa.MakeClosure)
+		if !ok {
+			return nil
+		}
+		g, ok := mc.Fn.(*ssa.Function)
+		if !ok || len(g.Blocks) == 0 || len(g.FreeVars) != len(mc.Bindings) {
+			return nil
+		}
+		for _, fr := range stack {
+			if fr.fn == g {
+				return nil
+			}
+		}
+		for i, fv := range g.FreeVars {
+			bound[fv] = resolve(mc.Bindings[i])
+		}
+		return g
+	}
 	stepInto := func(call *ssa.Call) *ssa.Function {
-		if spec.NoStep || len(stack) > 2 {
+		maxDepth := 2
+		if spec.funcArgs {
+			maxDepth = 5
+		}
+		if spec.NoStep || len(stack) > maxDepth {
 			return nil
 		}
 		g := call.Call.StaticCallee()
+		if spec.funcArgs && g != nil && !call.Call.IsInvoke() && len(g.Blocks) > 0 && !spec.opaque[g] {
+			// a private function of the package that is handed a function value, or the
+			// method behind a bound-method value that was stepped through
+			private := g.Object() != nil && !g.Object().Exported() && fn.Pkg != nil && g.Object().Pkg() == fn.Pkg.Pkg
+			takesFunc := false
+			for _, a := range call.Call.Args {
+				if _, isSig := a.Type().Underlying().(*types.Signature); isSig {
+					takesFunc = true
+				}
+			}
+			inWrapper := strings.Contains(stack[len(stack)-1].fn.Synthetic, "bound method wrapper")
+			onStack := false
+			for _, fr := range stack {
+				if fr.fn == g {
+					onStack = true
+				}
+			}
+			named := false
+			if spec.Effect != nil {
+				_, named = spec.Effect(call)
+			}
+			if private && (takesFunc || inWrapper) && !onStack && !named {
+				return g
+			}
+		}
 		if g == nil || call.Call.IsInvoke() || len(g.Blocks) == 0 || g.Pkg == nil || fn.Pkg == nil || g.Pkg != fn.Pkg {
 			return nil
 		}
@@ -412,11 +491,23 @@ func interpret(spec DecideSpec, val Val, pos func(token.Pos) string) (string, []
 						}
 					}
 					stack = append(stack, &frame{fn: g, b: g.Blocks[0], call: t, visits: map[*ssa.BasicBlock]int{}})
+				} else if g := stepThroughValue(t); g != nil {
+					for i, p := range g.Params {
+						if i < len(t.Call.Args) {
+							bound[p] = resolve(t.Call.Args[i])
+						}
+					}
+					stack = append(stack, &frame{fn: g, b: g.Blocks[0], call: t, visits: map[*ssa.BasicBlock]int{}})
 				}
 			case *ssa.Store:
-				switch t.Addr.(type) {
+				switch a := t.Addr.(type) {
 				case *ssa.FieldAddr, *ssa.Alloc:
 					mem[cellNameR(t.Addr, resolve)] = resolve(t.Val)
+				case *ssa.FreeVar:
+					// a captured cell of the enclosing function
+					if cell, ok := bound[a]; ok {
+						mem[cellNameR(cell, resolve)] = resolve(t.Val)
+					}
 				}
 			case *ssa.Return:
 				if len(stack) > 1 {
